@@ -233,8 +233,148 @@ impl<'a> QName<'a> {
     }
 //@end
 }
+use crate::attrs_::{Attr, attr_items, State, key_text, attr_key_text, attr_value_text};
+use core::ops::Range;
+pub open spec fn b_xmlns() -> Seq<u8> { seq![0x78u8, 0x6d, 0x6c, 0x6e, 0x73] }
+pub open spec fn b_xml() -> Seq<u8> { seq![0x78u8, 0x6d, 0x6c] }
+/// a declared binding: (prefix -- None for the default namespace --, namespace name)
+pub struct Decl { pub prefix: Option<Seq<u8>>, pub value: Seq<u8> }
+/// outcome of looking at one attribute (Namespaces in XML 1.1, section 3 and "Reserved Prefixes and Namespace Names")
+pub enum DeclStep { NotADecl, Add(Decl), Skip, ErrXmlBind(Seq<u8>), ErrXmlnsBind(Seq<u8>), ErrForXml(Seq<u8>), ErrForXmlns(Seq<u8>) }
+/// what one attribute means for the scope that is being opened
+#[verifier::opaque]
+pub open spec fn decl_step(s: Seq<u8>, a: Attr<Range<usize>>) -> DeclStep {
+    let key = attr_key_text(s, a);
+    let v = attr_value_text(s, a);
+    if key =~= b_xmlns() { DeclStep::Add(Decl { prefix: None, value: v }) }
+    else if key.len() >= 6 && sw(key, b_xmlns()) && key[5] == 0x3a {
+        let p = key.subrange(6, key.len() as int);
+        // `xml` may only be bound to its own namespace name (and is then not recorded), `xmlns` must not be declared,
+        // no other prefix may be bound to one of the two reserved namespace names
+        if p =~= b_xml() { if v =~= uri_xml() { DeclStep::Skip } else { DeclStep::ErrXmlBind(v) } }
+        else if p =~= b_xmlns() { DeclStep::ErrXmlnsBind(v) }
+        else if v =~= uri_xml() { DeclStep::ErrForXml(p) }
+        else if v =~= uri_xmlns() { DeclStep::ErrForXmlns(p) }
+        // (an empty prefix after `xmlns:` is not an NCName; the code records it with prefix length 0, i.e. like a
+        // default declaration -- the property statement is silent about such input)
+        else { DeclStep::Add(Decl { prefix: if p.len() == 0 { None } else { Some(p) }, value: v }) }
+    } else { DeclStep::NotADecl }
+}
+/// the declarations of the attributes items[k..], in order, or the first reserved-name error
+#[verifier::opaque]
+pub open spec fn decls_from(s: Seq<u8>, items: Seq<Attr<Range<usize>>>, k: int) -> core::result::Result<Seq<Decl>, DeclStep> decreases items.len() - k {
+    if k < 0 || k >= items.len() { Ok(Seq::empty()) } else {
+        match decl_step(s, items[k]) {
+            DeclStep::NotADecl | DeclStep::Skip => decls_from(s, items, k + 1),
+            DeclStep::Add(d) => match decls_from(s, items, k + 1) { Ok(rest) => Ok(seq![d] + rest), Err(e) => Err(e) },
+            e => Err(e),
+        }
+    }
+}
+/// the bindings b[from..] as declarations
+#[verifier::opaque]
+pub open spec fn decls_view(b: Seq<NamespaceEntry>, buf: Seq<u8>, from: int) -> Seq<Decl> {
+    Seq::new((b.len() - from) as nat, |i: int| Decl { prefix: b[from + i].spec_prefix(buf), value: b[from + i].spec_value(buf) })
+}
+pub open spec fn err_view(e: NamespaceError) -> DeclStep {
+    match e {
+        NamespaceError::InvalidXmlPrefixBind(v) => DeclStep::ErrXmlBind(v@),
+        NamespaceError::InvalidXmlnsPrefixBind(v) => DeclStep::ErrXmlnsBind(v@),
+        NamespaceError::InvalidPrefixForXml(p) => DeclStep::ErrForXml(p@),
+        NamespaceError::InvalidPrefixForXmlns(p) => DeclStep::ErrForXmlns(p@),
+        NamespaceError::UnknownPrefix(_) => DeclStep::NotADecl,
+    }
+}
+pub proof fn lemma_decls_view_empty(b: Seq<NamespaceEntry>, buf: Seq<u8>)
+    ensures decls_view(b, buf, b.len() as int) == Seq::<Decl>::empty()
+{ reveal(decls_view); assert(decls_view(b, buf, b.len() as int) =~= Seq::<Decl>::empty()); }
+pub proof fn lemma_step_default(s: Seq<u8>, a: Attr<Range<usize>>)
+    requires attr_key_text(s, a) =~= b_xmlns()
+    ensures decl_step(s, a) == DeclStep::Add(Decl { prefix: None, value: attr_value_text(s, a) })
+{ reveal(decl_step); }
+pub proof fn lemma_step_named(s: Seq<u8>, a: Attr<Range<usize>>, p: Seq<u8>)
+    requires ({ let key = attr_key_text(s, a); key.len() >= 6 && sw(key, b_xmlns()) && key[5] == 0x3a && p == key.subrange(6, key.len() as int) })
+    ensures ({
+        let v = attr_value_text(s, a);
+        decl_step(s, a) == (if p =~= b_xml() { if v =~= uri_xml() { DeclStep::Skip } else { DeclStep::ErrXmlBind(v) } }
+            else if p =~= b_xmlns() { DeclStep::ErrXmlnsBind(v) }
+            else if v =~= uri_xml() { DeclStep::ErrForXml(p) }
+            else if v =~= uri_xmlns() { DeclStep::ErrForXmlns(p) }
+            else { DeclStep::Add(Decl { prefix: if p.len() == 0 { None } else { Some(p) }, value: v }) })
+    })
+{
+    reveal(decl_step);
+    let key = attr_key_text(s, a);
+    assert(!(key =~= b_xmlns()));
+}
+pub proof fn lemma_step_none(s: Seq<u8>, a: Attr<Range<usize>>)
+    requires ({ let key = attr_key_text(s, a); !(sw(key, b_xmlns()) && (key.len() == 5 || key[5] == 0x3a)) })
+    ensures decl_step(s, a) == DeclStep::NotADecl
+{
+    reveal(decl_step);
+    let key = attr_key_text(s, a);
+    if key =~= b_xmlns() { assert(sw(key, b_xmlns()) && key.len() == 5); }
+}
+/// loop invariant of push: what has been added so far, followed by what the attributes from `k` on declare, is the whole
+#[verifier::opaque]
+pub open spec fn decl_inv(s: Seq<u8>, all: Seq<Attr<Range<usize>>>, k: int, added: Seq<Decl>) -> bool {
+    0 <= k <= all.len() && decls_from(s, all, 0) == (match decls_from(s, all, k) {
+        Ok(rest) => Ok::<Seq<Decl>, DeclStep>(added + rest),
+        Err(e) => Err(e),
+    })
+}
+pub proof fn lemma_inv_start(s: Seq<u8>, all: Seq<Attr<Range<usize>>>)
+    ensures decl_inv(s, all, 0, Seq::<Decl>::empty())
+{
+    reveal(decl_inv);
+    match decls_from(s, all, 0) { Ok(rest) => { assert(Seq::<Decl>::empty() + rest =~= rest); } Err(_) => {} }
+}
+pub proof fn lemma_inv_skip(s: Seq<u8>, all: Seq<Attr<Range<usize>>>, k: int, added: Seq<Decl>)
+    requires decl_inv(s, all, k, added), k < all.len(), decl_step(s, all[k]) is NotADecl || decl_step(s, all[k]) is Skip
+    ensures decl_inv(s, all, k + 1, added)
+{ reveal(decl_inv); reveal_with_fuel(decls_from, 2); }
+pub proof fn lemma_inv_add(s: Seq<u8>, all: Seq<Attr<Range<usize>>>, k: int, added: Seq<Decl>, d: Decl)
+    requires decl_inv(s, all, k, added), k < all.len(), decl_step(s, all[k]) == DeclStep::Add(d)
+    ensures decl_inv(s, all, k + 1, added.push(d))
+{
+    reveal(decl_inv); reveal_with_fuel(decls_from, 2);
+    match decls_from(s, all, k + 1) { Ok(rest) => { assert(added + (seq![d] + rest) =~= added.push(d) + rest); } Err(_) => {} }
+}
+pub proof fn lemma_inv_err(s: Seq<u8>, all: Seq<Attr<Range<usize>>>, k: int, added: Seq<Decl>)
+    requires decl_inv(s, all, k, added), k < all.len(),
+        !(decl_step(s, all[k]) is NotADecl) && !(decl_step(s, all[k]) is Skip) && !(decl_step(s, all[k]) is Add)
+    ensures decls_from(s, all, 0) == Err::<Seq<Decl>, DeclStep>(decl_step(s, all[k]))
+{ reveal(decl_inv); reveal_with_fuel(decls_from, 2); }
+pub proof fn lemma_inv_end(s: Seq<u8>, all: Seq<Attr<Range<usize>>>, added: Seq<Decl>)
+    requires decl_inv(s, all, all.len() as int, added)
+    ensures decls_from(s, all, 0) == Ok::<Seq<Decl>, DeclStep>(added)
+{ reveal(decl_inv); reveal_with_fuel(decls_from, 2); assert(added + Seq::<Decl>::empty() =~= added); }
+/// appending one entry (whose bytes are appended to the buffer) appends its declaration to the view
+pub proof fn lemma_decls_view_push(b: Seq<NamespaceEntry>, buf: Seq<u8>, b2: Seq<NamespaceEntry>, buf2: Seq<u8>, from: int, d: Decl)
+    requires
+        0 <= from <= b.len(), b2.len() == b.len() + 1, b2.subrange(0, b.len() as int) == b,
+        buf2.len() >= buf.len(), buf2.subrange(0, buf.len() as int) == buf,
+        forall|i: int| 0 <= i < b.len() ==> (#[trigger] b[i]).start + b[i].prefix_len + b[i].value_len <= buf.len(),
+        b2.last().spec_prefix(buf2) == d.prefix, b2.last().spec_value(buf2) == d.value,
+    ensures decls_view(b2, buf2, from) == decls_view(b, buf, from).push(d)
+{
+    reveal(decls_view);
+    assert(decls_view(b2, buf2, from).len() == decls_view(b, buf, from).len() + 1);
+    assert forall|i: int| 0 <= i < b.len() - from implies decls_view(b2, buf2, from)[i] == decls_view(b, buf, from)[i] by {
+        let e = b[from + i];
+        assert(b2[from + i] == b2.subrange(0, b.len() as int)[from + i]);
+        assert(e.start + e.prefix_len + e.value_len <= buf.len());
+        assert(buf2.subrange(e.start as int, e.start + e.prefix_len) =~= buf.subrange(e.start as int, e.start + e.prefix_len)) by {
+            assert forall|j: int| e.start <= j < e.start + e.prefix_len implies buf2[j] == buf[j] by { assert(buf2.subrange(0, buf.len() as int)[j] == buf2[j]); }
+        }
+        assert(buf2.subrange(e.start + e.prefix_len, e.start + e.prefix_len + e.value_len) =~= buf.subrange(e.start + e.prefix_len, e.start + e.prefix_len + e.value_len)) by {
+            assert forall|j: int| e.start + e.prefix_len <= j < e.start + e.prefix_len + e.value_len implies buf2[j] == buf[j] by { assert(buf2.subrange(0, buf.len() as int)[j] == buf2[j]); }
+        }
+    }
+}
 impl NamespaceResolver {
 //@extract name::NamespaceResolver::push | src/name.rs :: impl NamespaceResolver :: fn push | serves=C05 n13=1 n1=match
+ #[verifier::rlimit(800)]
  pub fn push(&mut self, start: &BytesStart) -> (r: core::result::Result<(), NamespaceError>)
         requires old(self).nesting_level < i32::MAX, old(self).wf(), start.name_len <= start.buf@.len(),
         ensures final(self).wf(), final(self).nesting_level == old(self).nesting_level + 1,
@@ -242,20 +382,57 @@ impl NamespaceResolver {
             final(self).bindings@.len() >= old(self).bindings@.len(),
             final(self).bindings@.subrange(0, old(self).bindings@.len() as int) == old(self).bindings@,
             forall|i: int| old(self).bindings@.len() <= i < final(self).bindings@.len() ==> (#[trigger] final(self).bindings@[i]).level == final(self).nesting_level,
+            // C05: WHICH bindings are added: exactly the namespace declarations among the attributes of the element (as the
+            // attribute iterator yields them, up to its first error), in order -- or the first reserved-name violation
+            match decls_from(start.buf@, attr_items(State::Next(start.name_len), false, start.buf@), 0) {
+                Ok(ds) => r is Ok && decls_view(final(self).bindings@, final(self).buffer@, old(self).bindings@.len() as int) =~= ds,
+                Err(e) => r matches Err(x) && err_view(x) == e,
+            },
+            // the bytes of the bindings already in scope are untouched
+            final(self).buffer@.len() >= old(self).buffer@.len(), final(self).buffer@.subrange(0, old(self).buffer@.len() as int) == old(self).buffer@,
  {
         self.nesting_level += 1;
         let level = self.nesting_level;
         let ghost b0 = self.bindings@;
+        let ghost buf0 = self.buffer@;
+        let ghost sb = start.buf@;
+        let ghost all = attr_items(State::Next(start.name_len), false, start.buf@);
+        let ghost mut gi: int = 0;
+        proof { assert(all.subrange(0, all.len() as int) =~= all); lemma_decls_view_empty(self.bindings@, self.buffer@); lemma_inv_start(sb, all); }
         // adds new namespaces for attributes starting with 'xmlns:' and for the 'xmlns'
         // (default namespace) attribute.
         match start.attributes().with_checks(false) { mut __it1 => loop
+            invariant_except_break
+                attr_items(__it1.state.state, __it1.state.html, __it1.bytes@) == all.subrange(gi, all.len() as int),
             invariant
                 __it1.inv(), __it1.bytes@ == start.buf@, level == self.nesting_level, self.nesting_level == old(self).nesting_level + 1, self.wf(),
                 self.bindings@.len() >= b0.len(), self.bindings@.subrange(0, b0.len() as int) == b0, b0 == old(self).bindings@,
                 forall|i: int| b0.len() <= i < self.bindings@.len() ==> (#[trigger] self.bindings@[i]).level == level,
+                sb == start.buf@, buf0 == old(self).buffer@, self.buffer@.len() >= buf0.len(), self.buffer@.subrange(0, buf0.len() as int) == buf0,
+                !__it1.state.check_duplicates, !__it1.state.html, 0 <= gi <= all.len(),
+                all == attr_items(State::Next(start.name_len), false, start.buf@),
+                // what has been added so far, followed by what the remaining attributes declare, is the whole
+                decl_inv(sb, all, gi, decls_view(self.bindings@, self.buffer@, b0.len() as int)),
+            ensures
+                decls_from(sb, all, 0) == Ok::<Seq<Decl>, DeclStep>(decls_view(self.bindings@, self.buffer@, b0.len() as int)),
             decreases __it1.ahead()
-        { match __it1.next() { None => { break; } Some( a) => {
+        { match __it1.next() { None => { proof { assert(gi == all.len()); lemma_inv_end(sb, all, decls_view(self.bindings@, self.buffer@, b0.len() as int)); } break; } Some( a) => {
             if let Ok(Attribute { key: k, value: v }) = a {
+                let ghost it = all[gi];
+                let ghost kb = attr_key_text(sb, it);
+                let ghost vb = attr_value_text(sb, it);
+                let ghost bind0 = self.bindings@;
+                let ghost bufa = self.buffer@;
+                let ghost added0 = decls_view(bind0, bufa, b0.len() as int);
+                proof {
+                    axiom_cow_bytes(&v);
+                    assert(all.subrange(gi, all.len() as int)[0] == it);
+                    assert(all.subrange(gi, all.len() as int).subrange(1, all.len() - gi) =~= all.subrange(gi + 1, all.len() as int));
+                    axiom_items_slice::<u8>();
+                    lemma_copy_of_bytes();
+                    assert(k.0@ == kb);
+                    assert(v@ == vb);
+                }
                 match k.as_namespace_binding() {
                     Some(PrefixDeclaration::Default) => {
                         let start = self.buffer.len();
@@ -266,20 +443,43 @@ impl NamespaceResolver {
                             value_len: v.len(),
                             level,
                         });
+                        proof {
+                            lemma_step_default(sb, it);
+                            assert(self.buffer@ =~= bufa + vb);
+                            assert(self.buffer@.subrange(0, bufa.len() as int) =~= bufa);
+                            assert(self.bindings@.subrange(0, bind0.len() as int) =~= bind0);
+                            assert(self.bindings@.last().spec_value(self.buffer@) =~= vb);
+                            assert(self.bindings@.last().spec_prefix(self.buffer@) == None::<Seq<u8>>);
+                            lemma_decls_view_push(bind0, bufa, self.bindings@, self.buffer@, b0.len() as int, Decl { prefix: None, value: vb });
+                            lemma_inv_add(sb, all, gi, added0, Decl { prefix: None, value: vb });
+                        }
                     } ,
                     Some(PrefixDeclaration::Named(__b13_1)) if bytes_eq(__b13_1, &[b'x', b'm', b'l']) => {
+                        proof {
+                            lemma_step_named(sb, it, b_xml());
+                            if vb =~= uri_xml() { lemma_inv_skip(sb, all, gi, added0); } else { lemma_inv_err(sb, all, gi, added0); }
+                        }
                         if Namespace(&v) != RESERVED_NAMESPACE_XML.1 {
                             // error, `xml` prefix explicitly set to different value
+                            proof { assert(!(vb =~= uri_xml())); assert(decls_from(sb, all, 0) == Err::<Seq<Decl>, DeclStep>(DeclStep::ErrXmlBind(vb))); }
                             return Err(NamespaceError::InvalidXmlPrefixBind(v.to_vec()));
                         }
                         // don't add another NamespaceEntry for the `xml` namespace prefix
                     } ,
                     Some(PrefixDeclaration::Named(__b13_2)) if bytes_eq(__b13_2, &[b'x', b'm', b'l', b'n', b's']) => {
                         // error, `xmlns` prefix explicitly set
+                        proof { lemma_step_named(sb, it, b_xmlns()); lemma_inv_err(sb, all, gi, added0); }
                         return Err(NamespaceError::InvalidXmlnsPrefixBind(v.to_vec()));
                     } ,
                     Some(PrefixDeclaration::Named(prefix)) => {
                         let ns = Namespace(&v);
+                        let ghost pb = prefix@;
+                        proof {
+                            assert(pb == kb.subrange(6, kb.len() as int));
+                            lemma_step_named(sb, it, pb);
+                            if vb =~= uri_xml() || vb =~= uri_xmlns() { lemma_inv_err(sb, all, gi, added0); }
+                            axiom_slice_len(prefix);
+                        }
 
                         if ns == RESERVED_NAMESPACE_XML.1 {
                             // error, non-`xml` prefix set to xml uri
@@ -298,10 +498,21 @@ impl NamespaceResolver {
                             value_len: v.len(),
                             level,
                         });
+                        proof {
+                            assert(self.buffer@ =~= bufa + pb + vb);
+                            assert(self.buffer@.subrange(0, bufa.len() as int) =~= bufa);
+                            assert(self.bindings@.subrange(0, bind0.len() as int) =~= bind0);
+                            assert(self.bindings@.last().spec_value(self.buffer@) =~= vb);
+                            if pb.len() > 0 { assert(self.bindings@.last().spec_prefix(self.buffer@)->Some_0 =~= pb); }
+                            lemma_decls_view_push(bind0, bufa, self.bindings@, self.buffer@, b0.len() as int, Decl { prefix: if pb.len() == 0 { None } else { Some(pb) }, value: vb });
+                            lemma_inv_add(sb, all, gi, added0, Decl { prefix: if pb.len() == 0 { None } else { Some(pb) }, value: vb });
+                        }
                     } ,
-                    None => {} ,
+                    None => { proof { lemma_step_none(sb, it); lemma_inv_skip(sb, all, gi, added0); } } ,
                 }
+                proof { gi = gi + 1; }
             } else {
+                proof { assert(gi == all.len()); lemma_inv_end(sb, all, decls_view(self.bindings@, self.buffer@, b0.len() as int)); }
                 break;
             }
         } } } }
